@@ -52,6 +52,27 @@ chk.assumptions += [
     "a fraction in [1, 1+1e-12] or [-1e-12, 0] counts as round-off; hydrogen-only monotonicity tolerates 8 ulp",
     "the documented floor (x == 1e-14) exempts a case from the residual clause (counted: honly_floor_active*), not from monotonicity",
 ]
+# thread invariance: the calculator and its rate tables are shared by all worker threads, which work on cells of different
+# temperatures at the same moment (harness/c06_threads.cpp: alone vs concurrently, balance residual with the cell's own rate;
+# the same harness under ThreadSanitizer)
+sys.path.insert(0, os.path.join(os.path.dirname(os.path.abspath(__file__)), "..", "oracle"))
+import tsan_classify
+try:
+    exe_thr = common.build_harness("c06_threads", "hooks")
+    exe_thr_tsan = common.build_harness("c06_threads", "tsan")
+except common.BuildError as e:
+    chk.inconclusive_because(str(e)); chk.finish()
+quick_ = chk.tier == "quick"
+thr, _ = hcheck.run_shards(chk, exe_thr, ["--cells", str(60000 if quick_ else 1500000), "--threads", "8"], 2 if quick_ else 8, timeout=1200, max_workers=2)
+rd_ = chk.rundir()
+tenv = {"TSAN_OPTIONS": "halt_on_error=0:report_signal_unsafe=0:log_path=%s/tsan.log:exitcode=0" % rd_}
+tthr, _ = hcheck.run_shards(chk, exe_thr_tsan, ["--cells", str(3000 if quick_ else 40000), "--threads", "4"], 2 if quick_ else 6, timeout=1800, env=tenv, max_workers=2)
+reports = tsan_classify.classify_dir(rd_)
+for rep in reports:
+    if not rep["benign"]:
+        chk.violation("tsan/" + rep["key"], rep["summary"], {"report": rep["text"][:4000]})
+chk.coverage["thread_invariance"] = dict(cells_compared=thr.get("cells_compared", 0), tsan_cells=tthr.get("cells_compared", 0), tsan_reports=len(reports))
+chk.require_nonzero(thread_cells=thr.get("cells_compared"), tsan_cells=tthr.get("cells_compared"))
 chk.require_nonzero(
     vacuum_cells=stats.get("n_zero"), zero_flux=stats.get("flux_zero"),
     spectra_without_He_photons=stats.get("no_He_ionizing_photons"), spectra_with_He_photons=stats.get("with_He_ionizing_photons"),
